@@ -401,6 +401,52 @@ def stage_r2(chk, bindir, tier, stats):
     return r.distinct + r2.distinct, r.generated + r2.generated
 
 
+def stage_l(chk, bindir, tier, stats):
+    """Large responses in the flush window: every event of a rotated memtable of 17 000 (thorough: 40 000) events is
+    visible twice (passive buffer + written / published segment); a selection must still return each exactly once -
+    the response writer's de-duplication must hold for any response size."""
+    n = 17000 if tier == "quick" else 40000
+    for point in ("flush.published",) if tier == "quick" else ("flush.written", "flush.published"):
+        root = core.WORK / "c03" / "large"
+        if root.exists():
+            shutil.rmtree(root)
+        root.mkdir(parents=True)
+        steps = [{"op": "cmd", "text": 'DEFINE ev FIELDS { k: "int", ty: "string" }', "tag": ["define"]},
+                 {"op": "park_at", "names": [point]}]
+        for k in range(1, n + 1):
+            steps.append({"op": "cmd", "text": f'STORE ev FOR c{k % 7} PAYLOAD {{"k": {k}, "ty": "ev"}}'})
+        steps += [{"op": "wait_parked", "name": point, "tag": ["parked"], "ms": 60000},
+                  {"op": "cmd", "text": "QUERY ev RETURN [k]", "tag": ["q"], "timeout_ms": 60000},
+                  {"op": "cmd", "text": "REPLAY ev FOR c1 RETURN [k]", "tag": ["r"], "timeout_ms": 60000},
+                  {"op": "release", "name": point}, {"op": "flush_wait"},
+                  {"op": "cmd", "text": "QUERY ev RETURN [k]", "tag": ["q_after"], "timeout_ms": 60000}]
+        cfg = {"root": str(root / "db"), "fill_factor": n // 1000, "event_per_zone": 1000, "shards": 1, "k": 2, "threads": 6}
+        rc, obs, err = core.run_vdrive(bindir, {"config": cfg, "out": str(root / "obs.ndjson"), "steps": steps}, timeout=900)
+        rep = {"events": n, "parked_at": point}
+        if rc != 0:
+            chk.violation(f"large-response stage: engine ended with {rc}: {err[-200:]}", rep)
+            continue
+        for o in obs:
+            t = o.get("tag")
+            if t == ["parked"] and not o.get("parked"):
+                chk.violation(f"large-response stage: the flush worker did not reach {point}", rep)
+            if t in (["q"], ["r"], ["q_after"]):
+                stats["large_reads"] += 1
+                ks = ks_of(o)
+                want = n if t != ["r"] else len([k for k in range(1, n + 1) if k % 7 == 1])
+                what = {"q": "QUERY ev", "r": "REPLAY ev FOR c1", "q_after": "QUERY ev after the flush"}[t[0]]
+                if ks is None:
+                    chk.violation(f"large-response stage: {what} failed: {(o.get('outcome'), o.get('status'))}", rep)
+                elif len(ks) != len(set(ks)):
+                    chk.violation(f"{what} while the flush worker is parked at {point}, {n} events rotated: {len(ks)} rows for {len(set(ks))} distinct events "
+                                  f"({len(ks) - len(set(ks))} returned twice)", rep)
+                elif len(set(ks)) != want:
+                    chk.violation(f"{what} while the flush worker is parked at {point}: {len(set(ks))} distinct events, {want} applied", rep)
+                else:
+                    stats["large_reads_ok"] += 1
+        shutil.rmtree(root, ignore_errors=True)
+
+
 def stage_m(chk, tier):
     out = {}
     for name, cfg, must_hold in (("design_atomic", "FlushRead_design.cfg", True), ("design_free", "FlushRead_design_free.cfg", True),
@@ -428,6 +474,7 @@ def run(tier):
     s3, t3 = stage_r2(chk, bindir, tier, stats)
     s2, t2 = s2 + s3, t2 + t3
     stage_t(chk, bindir, tier, stats)
+    stage_l(chk, bindir, tier, stats)
     if not chk.cov["samples"]:
         chk.sample({"forced_schedule_hooks": HOOKS, "note": "see stats for the number of schedules and reads"})
     chk.cov["states"] = s1 + s2
